@@ -53,9 +53,11 @@ MasterOf(k) == CASE k = 0 -> <<0, 0>> [] k = 1 -> <<2, 3>> [] OTHER -> <<9, 25>>
 SiOf(k) == CASE k = 0 -> <<0, 1>> [] k = 1 -> <<0, 2>> [] k = 2 -> <<1, 0>> [] k = 3 -> <<0, 4>> [] OTHER -> <<2, 7>>
 Init == atoms = <<>> /\ stage = "build" /\ grp \in [m : Masters, shape : Shapes, si : SiPairs]
 
-\* next_formula's `formulas` vector: a master with index b is appended at max(len, b); members
-\* look it up at b.  Second group visible to its member iff b >= a + 1.
-SecondGroupAsIsOK == SiOf(grp.si)[2] >= SiOf(grp.si)[1] + 1
+\* next_formula keeps the masters of the sheet's shared groups keyed by si (repair 71b5ea4): a group
+\* is visible to its members whatever the order and the gaps of the indices.  (As pinned the
+\* masters sat in a vector, a master with index b was appended at max(len, b) and looked up at b:
+\* the second group was visible to its member iff b >= a + 1 -- deviation SiDescending, repaired.)
+SecondGroupAsIsOK == SiOf(grp.si)[2] # SiOf(grp.si)[1]
 
 Members(g) == LET s == ShapeOf(g.shape) IN
               {d \in (0..(s.h - 1)) \X (0..(s.w - 1)) : d # <<0, 0>>}
